@@ -133,4 +133,215 @@ theorem view_clear (m : Bqm) (tv : VT) :
   refine ⟨?_, rfl, r.2⟩
   rw [r.1]; exact viewP_clear _ tv
 
+/-! ### one uniform step theorem for a view of the other vartype -/
+
+/-- one call issued through a `VartypeView` object, as a step on the polynomial the view shows: the algebraic step of the
+    call on the model itself (`LPoly.stepD`) — except that a view object has no `resize`, `add_linear_from_array`,
+    `add_quadratic_from_dense` (AttributeError / TypeError: undefined) and that `change_vartype` on a view object only
+    re-tags that object (nothing the view of vartype `tv` shows changes) -/
+def LPoly.stepV (p : LPoly) (op : Op) : LPoly × Bool :=
+  match op with
+  | .resize _ => (p, false)
+  | .addLinearFromArray _ => (p, false)
+  | .addQuadraticFromDense _ _ => (p, false)
+  | .changeVartype _ => (p, true)
+  | op => p.stepD op
+
+theorem flag_err {x : Bqm × Option ErrC} {y : LPoly × Bool} (e : ErrC) (hx : x.2 = some e) (hy : y.2 = false) :
+    (x.2 = none ↔ y.2 = true) := by rw [hx, hy]; simp
+
+theorem flag_ok {x : Bqm × Option ErrC} {y : LPoly × Bool} (hx : x.2 = none) (hy : y.2 = true) :
+    (x.2 = none ↔ y.2 = true) := by rw [hx, hy]; simp
+
+theorem mem_of_index {m : Bqm} {v : Label} {k : Nat} (h : m.indexOf? v = some k) : v ∈ m.labels :=
+  (mem_labels_iff m v).mpr ⟨k, h⟩
+
+theorem not_mem_of_index {m : Bqm} {v : Label} (h : m.indexOf? v = none) : v ∉ m.labels :=
+  (indexOf?_none_iff m v).mp h
+
+/-- **Every operation through a view of the other vartype** (`tv ≠ m.vt`): the view shows afterwards exactly
+    `LPoly.stepV` of what it showed before, the call raises exactly when that step is undefined, and the invariant is
+    kept.  Only side condition: the argument of `update` is a well-formed model. -/
+theorem view_step_other {m : Bqm} (i : Inv m) (tv : VT) (htv : tv ≠ m.vt) (op : Op) (ha : Direct op) :
+    (absL (m.step (.view tv) op).1).viewP tv = (((absL m).viewP tv).stepV op).1 ∧
+    ((m.step (.view tv) op).2 = none ↔ (((absL m).viewP tv).stepV op).2 = true) ∧
+    Inv (m.step (.view tv) op).1 := by
+  cases op with
+  | malformed => exact ⟨rfl, flag_err .type rfl rfl, i⟩
+  | addLinear v b =>
+    cases v with
+    | none => exact ⟨rfl, flag_err .value rfl rfl, i⟩
+    | some v => have r := view_addLinear i tv v b; exact ⟨r.1, flag_ok rfl rfl, r.2⟩
+  | setLinear v b =>
+    cases v with
+    | none => exact ⟨rfl, flag_err .value rfl rfl, i⟩
+    | some v => have r := view_setLinear i tv v b; exact ⟨r.1, flag_ok rfl rfl, r.2⟩
+  | addQuadratic u v b =>
+    cases u with
+    | none => exact ⟨rfl, flag_err .value rfl rfl, i⟩
+    | some u =>
+      cases v with
+      | none => exact ⟨rfl, flag_err .value rfl rfl, i⟩
+      | some v =>
+        by_cases h : u = v
+        · have e1 : m.step (.view tv) (.addQuadratic (some u) (some v) b) = (m, some .value) := by
+            simp only [Bqm.step, h, if_true]
+          have e2 : ((absL m).viewP tv).stepV (.addQuadratic (some u) (some v) b) = ((absL m).viewP tv, false) := by
+            show (if u = v then _ else _) = _
+            rw [if_pos h]
+          rw [e1, e2]; exact ⟨rfl, flag_err .value rfl rfl, i⟩
+        · have e1 : m.step (.view tv) (.addQuadratic (some u) (some v) b) = (m.vAddQuadratic tv u v b, none) := by
+            simp only [Bqm.step, Via.tv, h, if_false, Bqm.lift]
+          have e2 : ((absL m).viewP tv).stepV (.addQuadratic (some u) (some v) b) =
+              (((absL m).viewP tv).quadOp u v b false, true) := by
+            show (if u = v then _ else _) = _
+            rw [if_neg h]
+          have r := view_addQuadratic i tv u v b h
+          rw [e1, e2]; exact ⟨r.1, flag_ok rfl rfl, r.2⟩
+  | setQuadratic u v b =>
+    cases u with
+    | none => exact ⟨rfl, flag_err .value rfl rfl, i⟩
+    | some u =>
+      cases v with
+      | none => exact ⟨rfl, flag_err .value rfl rfl, i⟩
+      | some v =>
+        have e0 : m.step (.view tv) (.setQuadratic (some u) (some v) b) = m.vSetQuadratic tv u v b := rfl
+        by_cases h : u = v
+        · have e1 : m.vSetQuadratic tv u v b = (m, some .value) := by simp only [Bqm.vSetQuadratic, h, if_true]
+          have e2 : ((absL m).viewP tv).stepV (.setQuadratic (some u) (some v) b) = ((absL m).viewP tv, false) := by
+            show (if u = v then _ else _) = _
+            rw [if_pos h]
+          rw [e0, e1, e2]; exact ⟨rfl, flag_err .value rfl rfl, i⟩
+        · have e2 : ((absL m).viewP tv).stepV (.setQuadratic (some u) (some v) b) =
+              (((absL m).viewP tv).quadOp u v b true, true) := by
+            show (if u = v then _ else _) = _
+            rw [if_neg h]
+          have r := view_setQuadratic i tv u v b h
+          rw [e0, e2]; exact ⟨r.1, flag_ok r.2.1 rfl, r.2.2⟩
+  | removeInteraction u v =>
+    have r := view_removeInteraction i tv u v htv
+    have e0 : m.step (.view tv) (.removeInteraction u v) = m.vRemoveInteraction tv u v := rfl
+    have e2 : ((absL m).viewP tv).stepV (.removeInteraction u v) =
+        if (((absL m).viewP tv).quad u v).isSome then (((absL m).viewP tv).removeInteraction u v, true)
+        else ((absL m).viewP tv, false) := rfl
+    rw [e0, e2]
+    by_cases h : (((absL m).viewP tv).quad u v).isSome
+    · rw [if_pos h] at r ⊢
+      exact ⟨r.1, ⟨fun _ => rfl, fun _ => r.2.1.mpr h⟩, r.2.2⟩
+    · rw [if_neg h] at r ⊢
+      refine ⟨r.1, ⟨fun hn => absurd (r.2.1.mp hn) h, fun hn => by cases hn⟩, r.2.2⟩
+  | removeVariable v =>
+    cases v with
+    | some v =>
+      have e0 : m.step (.view tv) (.removeVariable (some v)) = m.vRemoveVariable tv (some v) := rfl
+      have e2 : ((absL m).viewP tv).stepV (.removeVariable (some v)) =
+          if v ∈ m.labels then (((absL m).viewP tv).removeVariable v, true) else ((absL m).viewP tv, false) := rfl
+      rw [e0, e2]
+      cases hk : m.indexOf? v with
+      | none =>
+        have e1 : m.vRemoveVariable tv (some v) = (m, some .value) := by
+          simp only [Bqm.vRemoveVariable, if_neg htv, hk]
+        rw [e1, if_neg (not_mem_of_index hk)]; exact ⟨rfl, flag_err .value rfl rfl, i⟩
+      | some vi =>
+        have r := view_removeKey i tv v hk htv
+        rw [if_pos (mem_of_index hk)]; exact ⟨r.1, flag_ok r.2.1 rfl, r.2.2⟩
+    | none =>
+      have e2 : ((absL m).viewP tv).stepV (.removeVariable none) =
+          if m.labels = [] then ((absL m).viewP tv, false) else (((absL m).viewP tv).dropLast, true) := rfl
+      rw [e2]
+      cases hl : m.labels.getLast? with
+      | none =>
+        have hnil : m.labels = [] := List.getLast?_eq_none_iff.mp hl
+        have e1 : m.step (.view tv) (.removeVariable none) = (m, some .value) := by
+          rw [view_removeLast_eq m tv htv, hl]
+        rw [e1, if_pos hnil]; exact ⟨rfl, flag_err .value rfl rfl, i⟩
+      | some l =>
+        have hne : m.labels ≠ [] := by intro e; rw [e] at hl; simp at hl
+        have r := view_removeLast i tv htv l hl
+        have ed : ((absL m).viewP tv).dropLast = ((absL m).viewP tv).removeVariable l := by
+          show (match m.labels.getLast? with | some l => _ | none => _) = _
+          rw [hl]
+        rw [if_neg hne, ed]; exact ⟨r.1, flag_ok r.2.1 rfl, r.2.2⟩
+  | addVariable v b =>
+    have r := view_addVariable i tv v b
+    have e0 : m.step (.view tv) (.addVariable v b) = (m.vAddVariable tv v b, none) := rfl
+    rw [e0]
+    cases v with
+    | some l => exact ⟨r.1, flag_ok rfl rfl, r.2⟩
+    | none =>
+      have e : m.autoLabel = ((absL m).viewP tv).autoLabel :=
+        autoLabel_congr m { vt := .spin, labels := m.labels, lin := [], adj := [], off := 0 } rfl
+      have e2 : ((absL m).viewP tv).stepV (.addVariable none b) =
+          (((absL m).viewP tv).addLinear ((absL m).viewP tv).autoLabel b, true) := rfl
+      rw [e2, ← e]; exact ⟨r.1, flag_ok rfl rfl, r.2⟩
+  | resize k => exact ⟨rfl, flag_err .type rfl rfl, i⟩
+  | scale s => have r := view_scale i tv s; exact ⟨r.1, flag_ok rfl rfl, r.2⟩
+  | setOffset b => have r := view_setOffset i tv b; exact ⟨r.1, flag_ok rfl rfl, r.2⟩
+  | changeVartype t => exact ⟨rfl, flag_ok rfl rfl, i⟩
+  | fixVariable v a =>
+    have e0 : m.step (.view tv) (.fixVariable v a) = m.vFixVariable tv v a := rfl
+    have e2 : ((absL m).viewP tv).stepV (.fixVariable v a) =
+        if v ∈ m.labels then (((absL m).viewP tv).fixVariable v a, true) else ((absL m).viewP tv, false) := rfl
+    rw [e0, e2]
+    cases hk : m.indexOf? v with
+    | none =>
+      have e1 : m.vFixVariable tv v a = (m, some .value) := by simp only [Bqm.vFixVariable, hk]
+      rw [e1, if_neg (not_mem_of_index hk)]; exact ⟨rfl, flag_err .value rfl rfl, i⟩
+    | some vi =>
+      have r := view_fix i tv v a hk htv
+      rw [if_pos (mem_of_index hk)]; exact ⟨r.1, flag_ok r.2.1 rfl, r.2.2⟩
+  | contract u v =>
+    have e0 : m.step (.view tv) (.contract u v) = m.vContract tv u v := rfl
+    have e2 : ((absL m).viewP tv).stepV (.contract u v) =
+        if u ∈ m.labels ∧ v ∈ m.labels ∧ u ≠ v then (((absL m).viewP tv).contract u v, true)
+        else ((absL m).viewP tv, false) := rfl
+    rw [e0, e2]
+    cases hu : m.indexOf? u with
+    | none =>
+      have e1 : m.vContract tv u v = (m, some .value) := by simp only [Bqm.vContract, hu]
+      rw [e1, if_neg (fun h => not_mem_of_index hu h.1)]; exact ⟨rfl, flag_err .value rfl rfl, i⟩
+    | some ui =>
+      cases hv : m.indexOf? v with
+      | none =>
+        have e1 : m.vContract tv u v = (m, some .value) := by simp only [Bqm.vContract, hu, hv]
+        rw [e1, if_neg (fun h => not_mem_of_index hv h.2.1)]; exact ⟨rfl, flag_err .value rfl rfl, i⟩
+      | some vi =>
+        by_cases hne : u = v
+        · have hi : ui = vi := by rw [hne] at hu; rw [hu] at hv; exact Option.some.inj hv
+          have e1 : m.vContract tv u v = (m, some .value) := by simp only [Bqm.vContract, hu, hv, hi, if_true]
+          rw [e1, if_neg (fun h => h.2.2 hne)]; exact ⟨rfl, flag_err .value rfl rfl, i⟩
+        · have r := view_contract i tv u v hu hv hne htv
+          rw [if_pos ⟨mem_of_index hu, mem_of_index hv, hne⟩]; exact ⟨r.1, flag_ok r.2.1 rfl, r.2.2⟩
+  | flip v =>
+    have e0 : m.step (.view tv) (.flip v) = m.vFlip tv true v := rfl
+    have e2 : ((absL m).viewP tv).stepV (.flip v) =
+        if v ∈ m.labels then (((absL m).viewP tv).flip v, true) else ((absL m).viewP tv, false) := rfl
+    rw [e0, e2]
+    cases hk : m.indexOf? v with
+    | none =>
+      have e1 : m.vFlip tv true v = (m, some .value) := by simp only [Bqm.vFlip, hk]
+      rw [e1, if_neg (not_mem_of_index hk)]; exact ⟨rfl, flag_err .value rfl rfl, i⟩
+    | some vi =>
+      have r := view_flip i tv v hk
+      rw [if_pos (mem_of_index hk)]; exact ⟨r.1, flag_ok r.2.1 rfl, r.2.2⟩
+  | relabel mp =>
+    have r := view_relabel i tv mp
+    have e2 : ((absL m).viewP tv).stepV (.relabel mp) =
+        if (LSpec.step m.labels (.relabel mp)).2 then
+          (((absL m).viewP tv).relabelTo (LSpec.step m.labels (.relabel mp)).1, true)
+        else ((absL m).viewP tv, false) := rfl
+    rw [e2]
+    by_cases h : (LSpec.step m.labels (.relabel mp)).2 = true
+    · rw [if_pos h] at r ⊢
+      exact ⟨r.1, ⟨fun _ => rfl, fun _ => r.2.1.mpr h⟩, r.2.2⟩
+    · rw [if_neg h] at r ⊢
+      exact ⟨r.1, ⟨fun hn => absurd (r.2.1.mp hn) h, fun hn => by cases hn⟩, r.2.2⟩
+  | relabelInts => have r := view_relabelInts i tv; exact ⟨r.1, flag_ok r.2.1 rfl, r.2.2⟩
+  | clear => have r := view_clear m tv; exact ⟨r.1, flag_ok r.2.1 rfl, r.2.2⟩
+  | update o => have r := view_update i ha tv; exact ⟨r.1, flag_ok rfl rfl, r.2⟩
+  | addLinearFrom l => exact view_addLinearFrom tv l i
+  | addQuadraticFrom l => exact view_addQuadraticFrom tv l i
+  | addLinearFromArray xs => exact ⟨rfl, flag_err .type rfl rfl, i⟩
+  | addQuadraticFromDense k d => exact ⟨rfl, flag_err .type rfl rfl, i⟩
+
 end Bqm
